@@ -5,7 +5,7 @@ cd "$(dirname "$0")" || exit 2
 PY=/venv/bin/python
 WH=/opt/veriftools/wheels
 mkdir -p .deps evidence replays
-export PYTHONPATH="/verif/.deps:${PYTHONPATH}"
+export PYTHONPATH="$(pwd)/.deps:${PYTHONPATH}"
 if ! $PY -c "import hypothesis" 2>/dev/null; then
   /venv/bin/pip install --no-index --find-links "$WH" --target .deps hypothesis || exit 1
 fi
